@@ -6,13 +6,16 @@ import re
 from vlib import sched
 
 TRUSTED = ["Lean 4.33 kernel", "axioms: propext, Classical.choice, Quot.sound at most (audited per theorem)",
-           "hand-written LTS Dsh/Fan.lean tied to dsh.c by trace acceptance (same `step` in theorems and acceptor)",
+           "hand-written LTS Dsh/FanG.lean (Dsh/Fan.lean with the signalling discipline left open) tied to dsh.c by "
+           "trace acceptance (same `step` in theorems and acceptor)",
            "harness/sched/* (scheduler, wrappers, stub transport below the real rcmd.c), vlib/sched.py, gcc, ASan/UBSan"]
 
 
 def assumptions(variant):
-    return ["POSIX semantics of pthread_mutex_lock/unlock and pthread_cond_wait/signal as modelled (wait releases "
-            "and parks; wake-up on signal or spuriously; re-acquire; a signal without waiter is lost)",
+    return ["POSIX semantics of pthread_mutex_lock/unlock and pthread_cond_wait/signal/broadcast as modelled (wait "
+            "releases and parks; wake-up on signal or spuriously; re-acquire; a signal without waiter is lost; the "
+            "dispatcher is the only waiter on threadcount_cond, so signal and broadcast are the same transition -- a "
+            "wait by any other thread is rejected by the acceptor)",
             "code between two wrapped calls of one thread is atomic w.r.t. the protocol (it touches only data "
             "protected by the mutex held, or thread-local data)",
             "fanout >= 1 (fanout 0 is C18's concern); pthread_create succeeds; every worker's command ends",
